@@ -220,28 +220,39 @@ fn natural_call(k: &Kind) -> Option<&'static str> {
 	})
 }
 
-pub fn union_unambiguous_by_type(env: &Env, branches: &[MSchema]) -> bool {
-	let mut seen = Vec::new();
-	for b in branches {
-		match natural_call(&env.kind(b)) {
-			None => return false,
-			Some(c) => {
-				if seen.contains(&c) {
-					return false;
-				}
-				seen.push(c);
-			}
+/// A value of branch `chosen`, presented through the serde call of its natural Rust type,
+/// designates that branch by its type when no other branch has the same natural call
+/// (`String` for `[enumA, enumB, "string"]` is the string; `i64` for `[date, time-millis,
+/// "long"]` is the long; but `i32` for `[int, date]` or a str for `[uuid, string]` is
+/// ambiguous). Branches without a natural Rust type (decimals, duration) never claim a call.
+pub fn union_unambiguous_by_type(env: &Env, branches: &[MSchema], chosen: usize) -> bool {
+	let Some(c) = natural_call(&env.kind(&branches[chosen])) else { return false };
+	for (j, b) in branches.iter().enumerate() {
+		if j != chosen && natural_call(&env.kind(b)) == Some(c) {
+			return false;
 		}
 	}
 	// A struct is looked up by its Rust name before its type is considered; a derive
 	// names the struct after the record's simple name. If that simple name is also
 	// the selecting name of another branch, the presentation is not "by type".
-	let names: Vec<String> = branches.iter().map(|b| branch_name(env, b)).collect();
+	// (every name that can select a branch counts: its branch name, the simple name of a
+	// namespaced type, and `Decimal` for a decimal of fixed representation)
+	let names: Vec<Vec<String>> = branches
+		.iter()
+		.map(|b| {
+			let n = branch_name(env, b);
+			let mut v = vec![split_fullname(&n).1.to_string(), n];
+			if matches!(env.kind(b), Kind::DecimalFixed { .. } | Kind::DecimalBytes { .. }) {
+				v.push("Decimal".to_string());
+			}
+			v
+		})
+		.collect();
 	for (i, b) in branches.iter().enumerate() {
 		if let Some(full) = env.resolve(b).fullname() {
 			let simple = split_fullname(full).1;
-			for (j, n) in names.iter().enumerate() {
-				if i != j && (n == simple || split_fullname(n).1 == simple) {
+			for (j, ns) in names.iter().enumerate() {
+				if i != j && ns.iter().any(|n| n == simple) {
 					return false;
 				}
 			}
@@ -530,7 +541,7 @@ impl<'t, 'd, 'e> Presenter<'t, 'd, 'e> {
 				};
 				let b = &bs[*i];
 				let bk = env.kind(b);
-				let by_type_ok = union_unambiguous_by_type(env, bs);
+				let by_type_ok = union_unambiguous_by_type(env, bs, *i);
 				// Option-like: [null, T] / [T, null] presented as None / Some(x)
 				if by_type_ok && !natural_only && self.tape.below(3) == 0 {
 					self.type_directed_unions += 1;
